@@ -98,6 +98,21 @@ ADD4 = {
  "C13": " Round 4: the directory is listed under its canonical path (R-C13-dir).",
  "C15": " Round 4: the document text is stored verbatim (R-C15-verbatim).",
 }
+ADD5 = {
+ "C01": " Round 5: no rewriting of the raw text before the lexer outside the comment blanker (R-C01-prestep).",
+ "C02": " Round 5: every place a variable or an enumeration value can be used is looked at by its rule (R-C02-uses, R-C02-enumuses); enumerated values are compared by value, not as whole nodes (R-C02-enumeq); ambiguous names are classified against the declarations (R-C02-latebound); tables of globals only take VAR_GLOBAL declarations (R-C02-globalkind); edge-triggered inputs are variables and inputs (R-C02-edgevars).",
+ "C03": " Round 5: a cached parse result is never kept across a change of the text (R-C03-cache); the block-comment pattern is the reference language (R-C03-comment).",
+ "C04": " Round 5: no analysis work on threads with the default stack (R-C04-threads).",
+ "C05": " Round 5: line/column counted per character of all consumed text (R-C05-linecol clause 3); label and message of a syntax error name the same token (R-C05-syntaxlabel).",
+ "C07": " Round 5: the sort and the cycle check run once, on the joined library (R-C07-pipeline), with per-scope state reset (R-C07-scope).",
+ "C08": " Round 5: keyword passes are not gated by a test on the raw text (R-C08-rawtext, R-C08-prestep); the block-comment pattern equals the reference automaton (R-C08-comment).",
+ "C10": " Round 5: the duration writer never drops the sub-second part (R-C10-durprec); the grammar binds unary operators tightest, which the renderer relies on (R-C10-prec).",
+ "C11": " Round 5: the text of didOpen/didChange reaches the analysed Source unchanged (R-C11-doctext).",
+ "C12": " Round 5: every message is dispatched on its kind and every Request reaches handle_request (R-C12-dispatch).",
+ "C13": " Round 5: the file-table key has derived equality and order (R-C13-fileid).",
+ "C14": " Round 5: the bytes read are decoded unmodified and whole (R-C14-rawbytes).",
+ "C15": " Round 5: start and length are UTF-16 code units, not code points (R-C15-units code-point clause); the Newline token and the line counter agree with the protocol's line terminators (R-C15-newline).",
+}
 NA_REASON = "check not built yet (round 1 in progress); see DESIGN.md section 3 for the planned static rules"
 props = [json.loads(l) for l in open("/verif/properties.jsonl")]
 checks = []
@@ -112,7 +127,7 @@ for p in props:
         "evidence_file": "/verif/evidence/%s.json" % p["id"],
         "replay_cmd_template": "./check %s --replay {path}" % p["id"],
         "engine": "mirfacts+rules",
-        "level_claimed": {"category": "other", "text": c["text"] + ADD.get(p["id"], "") + ADD3.get(p["id"], "") + ADD4.get(p["id"], ""), "design_ref": c["design"] + ", R2, R3, R4"},
+        "level_claimed": {"category": "other", "text": c["text"] + ADD.get(p["id"], "") + ADD3.get(p["id"], "") + ADD4.get(p["id"], "") + ADD5.get(p["id"], ""), "design_ref": c["design"] + ", R2, R3, R4, R5"},
         "level_note": NOTE,
         "technique": c["technique"],
     })
